@@ -216,7 +216,10 @@ const FramesPerSegment = 8
 type callFrameStackSegment struct {
 	array [FramesPerSegment]callFrame
 }
-type segIdx uint16
+
+// segIdx indexes the segments of a stack. (16 bits were too few: a limit above
+// 65536 segments wrapped the index of the last segment.)
+type segIdx uint32
 type autoGrowingCallFrameStack struct {
 	segments []*callFrameStackSegment
 	segIdx   segIdx
